@@ -476,7 +476,31 @@ func (w *World) Exec(op *Op) (Result, M) {
 		}
 		return Result{Res: "ok"}, out
 	case "advance":
-		// move to another height with a new selection seed; no state change
+		// move to another height with a new selection seed; no state change. A history in which a height with scheduled
+		// work (timeout, shard expiry, data expiry) is jumped over is not one a chain can have: generated histories never
+		// do, a replay from which operations were dropped may — it says so, and the shrinker discards such candidates
+		{
+			ctx := w.C.Ctx()
+			app := w.C.App
+			skipped := int64(0)
+			see := func(h int64) {
+				if h > w.C.Height && h < op.To && (skipped == 0 || h < skipped) {
+					skipped = h
+				}
+			}
+			for _, e := range app.SaoKeeper.GetAllTimeoutOrder(ctx) {
+				see(int64(e.Height))
+			}
+			for _, e := range app.SaoKeeper.GetAllExpiredShard(ctx) {
+				see(int64(e.Height))
+			}
+			for _, e := range app.ModelKeeper.GetAllExpiredData(ctx) {
+				see(int64(e.Height))
+			}
+			if skipped != 0 {
+				out["skippedSchedule"] = skipped
+			}
+		}
 		w.C.Height = op.To
 		seed, _ := new(big.Int).SetString(op.Seed, 10)
 		if seed == nil {
